@@ -500,6 +500,44 @@ Definition doc_ok_json (L : lex) (s : schema) (d : json) : bool :=
   | _, _ => false
   end.
 
+(* ---- C04, the "closed" part of the property on its own, without the schema: all ids of the document are distinct;
+   every '@' member, every element of an FSArray ("X[]" type names included), every view member names a feature
+   structure of the document; every %SOFA names a sofa entry of the document that carries the view's name ---- *)
+Definition doc_ids_distinctb (d : json) : bool :=
+  match fs_entries d with Ok es => znodup (map fst es) | _ => false end.
+Definition jints (l : list json) : list Z := flat_map (fun j => match j with JInt i => [i] | _ => [] end) l.
+Definition entry_refs (e : entry) : list Z :=
+  let m := snd e in
+  match e_type e with
+  | None => []
+  | Some t0 =>
+    if String.eqb (norm_tname t0) T_FS_ARRAY then match alookup K_ELEMENTS m with Some (JArr l) => jints l | _ => [] end
+    else flat_map (fun kv => match classify (fst kv), snd kv with KRef _, JInt i => [i] | _, _ => [] end) m
+  end.
+Definition view_refs_ok (es : list entry) (kv : string * json) : bool :=
+  match jget K_SOFA (snd kv), jget K_MEMBERS (snd kv) with
+  | Some (JInt sid), Some (JArr l) =>
+      existsb (fun e => Z.eqb (fst e) sid && is_sofa_entry e
+                        && match alookup "sofaID" (snd e) with Some (JStr n) => String.eqb n (fst kv) | _ => false end) es
+      && forallb (fun j => match j with JInt i => zmem i (map fst es) | _ => false end) l
+  | _, _ => false
+  end.
+Definition doc_refs_resolveb (d : json) : bool :=
+  match fs_entries d, doc_views d with
+  | Ok es, Ok views =>
+      forallb (fun e => forallb (fun i => zmem i (map fst es)) (entry_refs e)) es && forallb (view_refs_ok es) views
+  | _, _ => false
+  end.
+
+(* ---- C05: every CAS has the view _InitialView.  A document that does not mention it describes a CAS in which that view
+   is empty; its sofa takes the next id and the next sofaNum after those of the document (941f890) ---- *)
+Definition zmax_list (l : list Z) : Z := fold_left Z.max l 0.
+Definition with_initial_view (c : ccas) : ccas :=
+  if existsb (fun cs => String.eqb (cs_name cs) "_InitialView") (cc_sofas c) then c
+  else mkCcas (sort_by cs_id (cc_sofas c ++ [mkCsofa (zmax_list (map cs_id (cc_sofas c) ++ map fst (cc_fs c)) + 1)
+                                                      (zmax_list (map cs_num (cc_sofas c)) + 1) "_InitialView" None None None None []]))
+              (cc_fs c).
+
 (* ------------------------------------------------------------------------------------------ embedded type system *)
 
 (* a feature and a type as %TYPES declares them (member names, not the redundant %NAME, are what the reader uses) *)
